@@ -64,6 +64,14 @@ let small_handler args =
   { model = "A " ^ sh la ma ^ " B " ^ sh lb mb ^ " | heap unmodelled";
     spec = "A " ^ show_zs la ^ " B " ^ show_zs lb; dom = false }
 
+(* small_vector<int,4>, default configuration: the two-arm state machine of Containers.v *)
+let smalls_handler args =
+  let ops = ops_of args in
+  let (a, b) = smrun (nat_of_int cap) ops in let (la, lb) = std_run None ops in
+  let arm x = if sm_is_static x then "inline" else "heap" in
+  { model = "A " ^ show_zs (sm_contents a) ^ " B " ^ show_zs (sm_contents b) ^ " | heap unmodelled arms " ^ arm a ^ "," ^ arm b;
+    spec = "A " ^ show_zs la ^ " B " ^ show_zs lb; dom = true }
+
 (* utl::array<int,4>: a fixed list of four value-initialised cells *)
 let arr_handler args =
   let ops = ops_of args in
@@ -90,7 +98,7 @@ let tag_handler opf init show args =
   { model = r ^ " | heap a=0 f=0 bad=0 oob=0 live=0"; spec = r; dom = true }
 
 let () =
-  register "vec" vec_handler; register "svec" svec_handler; register "small" small_handler; register "arr" arr_handler;
+  register "vec" vec_handler; register "svec" svec_handler; register "small" small_handler; register "smalls" smalls_handler; register "arr" arr_handler;
   register "may" (tag_handler may_op (Coq_inr z0, Coq_inr z0) show_may);
   register "mayt" (tag_handler may_op (Coq_inr z0, Coq_inr z0) show_may);
   register "eit" (tag_handler eit_op (Coq_inl z0, Coq_inl z0) show_eit);
